@@ -94,6 +94,7 @@ func checkC13(r *Result) {
 	r.rule("PRO-RATA", "refund, bond reward and voter reward have the normal form own * pot / total with a claimant-independent pot")
 	r.rule("BURN-HALF", "half of BurnAmount is burned and half is the voters' pot; all is burned and the pot is zero when nobody voted")
 	r.rule("ALL-ROUNDS", "vote totals used for the voter reward accumulate over every round of the dispute")
+	r.rule("POWER-PARTITION", "the per-voter powers recorded add up to the group totals the reward is divided by: a selector voting after its reporter is taken out of the reporter's recorded power")
 	r.rule("REFUND-POT", "the refund base handed to RefundDisputeFee is the part of the fees that was not burned")
 
 	need := func(name string) *ssa.Function {
@@ -455,6 +456,55 @@ func checkC13(r *Result) {
 		}
 		r.check(n > 0, "ONCE-PER-DISPUTE", "(x/dispute/keeper.Keeper).AddDisputeRound # has a success return", P.Pos(adr.Pos()), fmt.Sprint(n))
 	}
+	// ---- POWER-PARTITION: the voter reward divides the pot by the group totals, so the per-voter powers recorded
+	// must add up to them: a selector that votes after its reporter is taken out of the reporter's recorded power
+	if sv := P.Func("(x/dispute/keeper.Keeper).SetVoterReporterStake"); sv == nil {
+		r.broken("anchor SetVoterReporterStake does not resolve")
+	} else {
+		r.fn(FuncName(sv))
+		ps := AnalyzePaths(sv, []Atom{
+			{Name: "reporterVoted", Cond: func(rel *Term) (bool, bool) {
+				if rel.Op == "ext:0" && len(rel.Args) == 1 && strings.HasSuffix(rel.Args[0].Op, ".Has") && rel.Has("field:x/dispute/keeper.Keeper.Voter") {
+					return true, true
+				}
+				return false, false
+			}},
+			{Name: "isReporter", Cond: func(rel *Term) (bool, bool) { return rel.Op == "call:bytes.Equal", true }},
+			{Name: "rewritten", Event: P.CallEvent(descIs("coll:x/dispute/keeper.Keeper.Voter.Set"), T)},
+		})
+		okAll, n, det := true, 0, ""
+		for _, ret := range SuccessReturns(sv) {
+			n++
+			if bad := ps.Require(ret, func(v map[string]bool) bool { return v["isReporter"] || !v["reporterVoted"] || v["rewritten"] }); len(bad) > 0 {
+				for _, b := range bad {
+					if strings.Contains(b, "?isReporter") {
+						continue // before the delegation lookup: not a selector
+					}
+					okAll, det = false, b
+				}
+			}
+		}
+		r.check(okAll && n > 0 && len(ps.Matched["reporterVoted"]) > 0, "POWER-PARTITION", "(x/dispute/keeper.Keeper).SetVoterReporterStake # a selector voting after its reporter rewrites the reporter's record on every success path", P.Pos(sv.Pos()), fmt.Sprintf("%d success returns %s", n, det))
+		nSt := 0
+		for _, b := range sv.Blocks {
+			for _, in := range b.Instrs {
+				st, ok := in.(*ssa.Store)
+				if !ok {
+					continue
+				}
+				fa, ok := st.Addr.(*ssa.FieldAddr)
+				if !ok || fieldName(fa.X.Type(), fa.Field) != "x/dispute/types.Voter.ReporterPower" {
+					continue
+				}
+				nSt++
+				v := NewTermer().Of(st.Val)
+				ok = v.Op == "call:(cosmossdk.io/math.Int).Sub" && len(v.Args) == 2 && strings.HasPrefix(v.Args[0].Op, "field:x/dispute/types.Voter.ReporterPower") && v.Args[0].Contains("Keeper.Voter") && v.Args[1].Op == "ext:0" && v.Args[1].Contains("GetDelegatorTokensAtBlock")
+				r.check(ok, "POWER-PARTITION", "(x/dispute/keeper.Keeper).SetVoterReporterStake # the reporter's recorded power is reduced by exactly the selector's tokens", P.Pos(st.Pos()), clip(v.String(), 200))
+			}
+		}
+		r.check(nSt == 1, "POWER-PARTITION", "(x/dispute/keeper.Keeper).SetVoterReporterStake # one write of the reporter's recorded power", P.Pos(sv.Pos()), fmt.Sprint(nSt))
+	}
+	r.minCount("POWER-PARTITION", 3)
 	r.minCount("ONCE-PER-DISPUTE", 4)
 	r.minCount("ONCE-EXECUTE", 6)
 	r.minCount("PRO-RATA", 3)
